@@ -77,6 +77,13 @@ add("C32", "genrun", "random on-disk package layouts x macro invocation forms; r
     "40 random layouts per quick run (single file, directory, deps/ folders with directory and single-file dependencies used or unused, several ordered paths, inline, inline+path(s)) are compiled as modules of one crate, plus three crates for the default `wit/` directory forms; rustc's dep-info must list every WIT file that wit_parser::Resolve::push_path reads for the layout.",
     "Dependency tracking is observed through rustc's .d file; the set of files read comes from wit-parser's PackageSourceMap; only importing worlds are used (the property is about file tracking, not codegen).")
 
+add("C12", "genrun", "generated worlds + corpus x C option variants -> clang --target=wasm32 + wasm-ld with the generated component-type object -> wit_component::ComponentEncoder (validate) -> decode and compare with the requested world",
+    "320 cases per quick run (whole tests/codegen corpus x {default, --no-sig-flattening, utf16, autodrop, --async=all where not excluded by crates/test/src/c.rs} + generated worlds with C/C++ keywords, generator temporaries and names equal across interfaces): every generated .c is compiled with -Werror=implicit-function-declaration -Werror=incompatible-pointer-types for wasm32, linked with <world>_component_type.o, encoded, validated, decoded; exports must equal the world's exports with identical function types, imports must be a subset, and every core export must be assigned to an item of the world.",
+    "clang-14 for wasm32-unknown-unknown with a small libc shim (harness/cshim) stands in for wasi-sdk; unresolved imports are left to the encoder. The listed C13 finding (async ABI forced on sync function types) is recognised at the validation step.")
+add("C09", "genrun", "generated worlds + corpus + a sweep of every adversarial name in every position x Rust option variants x editions {2021, 2024} -> `--stubs` bindings built as no_std cdylibs for wasm32-unknown-unknown (cargo -Zbuild-std=core,alloc, one batch per run) -> wit_component::ComponentEncoder (validate) -> decode and compare with the requested world",
+    "76 builds per quick run (14 corpus files, 26 generated worlds, 9 name-sweep worlds covering ~200 keywords/prelude names/temporaries as function, parameter, record, field, case and interface names, 27 witnesses of listed findings and fixed defects), 720 per thorough run. Oracle: rustc succeeds, the component validates, it exports exactly the world's exports with identical function types, imports a subset, and every core export is assigned to an item of the world.",
+    "std is not available for wasm32 in this sandbox (no dlmalloc source), so the HashMap map type is not built and a bump allocator/panic handler are supplied; stub bodies call no imports, so imports are a subset check. 14 root causes are listed as known findings and excluded by construction (see known-findings.txt); 13 further defects found by this check are fixed in /repo.")
+
 PENDING_REASON = "check not built yet in this session (planned in DESIGN.md §4); not claimed until it exists and passes its sensitivity runs"
 
 def main():
@@ -128,7 +135,7 @@ def main():
 NA = {}
 HOOK_COMMITS = ["b827c12", "a6f2383"]
 ENGINES = [
-    {"name": "genrun", "path": "harness/genrun", "serves_properties": ["C13", "C15", "C16", "C17", "C28", "C29", "C30", "C31", "C32", "C33"], "kind_free_text": "tape-driven constructive WIT world generator (harness/witgen) + in-process drivers for all eight generators with panic capture and output collection"},
+    {"name": "genrun", "path": "harness/genrun", "serves_properties": ["C09", "C12", "C13", "C15", "C16", "C17", "C28", "C29", "C30", "C31", "C32", "C33"], "kind_free_text": "tape-driven constructive WIT world generator (harness/witgen) + in-process drivers for all eight generators with panic capture and output collection"},
     {"name": "abisim", "path": "harness/abisim", "serves_properties": ["C01", "C02", "C03", "C04"], "kind_free_text": "recording wit_bindgen_core::abi::Bindgen + instruction interpreter + independent reference canonical ABI (harness/refabi), driven by proptest"},
     {"name": "rtpbt", "path": "harness/rtpbt", "serves_properties": ["C24"], "kind_free_text": "proptest histories against wit_bindgen::rt allocation entry points with a tracking global allocator"},
     {"name": "corepbt", "path": "harness/corepbt", "serves_properties": ["C17", "C25", "C26", "C27", "C28", "C34"], "kind_free_text": "proptest harnesses over public items of wit-bindgen-core / wit-bindgen rt / wit-bindgen-test"},
